@@ -84,7 +84,8 @@ fn serialize_range_mappings(sm: &SourceMap) -> Option<String> {
     let mut had_rmi = false;
     let mut empty = true;
 
-    let mut idx_of_first_in_line = 0;
+    // index of the next segment within the current line of `mappings`
+    let mut num = 0;
 
     let mut rmi_data = Vec::<u8>::new();
 
@@ -99,20 +100,24 @@ fn serialize_range_mappings(sm: &SourceMap) -> Option<String> {
             buf.push(b';');
             prev_line += 1;
             had_rmi = false;
-            idx_of_first_in_line = idx;
+            num = 0;
+        }
+
+        // duplicates are not written to `mappings` and thus don't occupy a bit
+        if is_duplicate_of_previous(sm, idx) {
+            continue;
         }
 
         if token.is_range() {
             had_rmi = true;
             empty = false;
 
-            let num = idx - idx_of_first_in_line;
-
             rmi_data.resize(rmi_data.len() + 2, 0);
 
             let rmi_bits = rmi_data.view_bits_mut::<Lsb0>();
             rmi_bits.set(num, true);
         }
+        num += 1;
     }
     if empty {
         return None;
